@@ -1,2 +1,130 @@
-//! Harnesses for property C24 (see /verif/properties.jsonl).
+//! Harnesses for property C24 (see /verif/properties.jsonl): decode/encode round trip.
+//!
+//! For every byte image the decoder accepts (no keys):
+//!  (a) `serialize(p)` is Ok (b1),
+//!  (b) b1 is the *normal form* of the input computed here from the wire format alone
+//!      (same header; same fields, same length fields, padding bytes zeroed, the unused tail of a
+//!      reference-id request zeroed; same MAC) — this is the independent oracle: a serializer that
+//!      writes another length than it reports, forgets padding, or drops a field fails it,
+//!  (c) `deserialize(b1)` is Ok(p2) and p2 == p,
+//!  (d) `serialize(p2)` == b1 (stable after one normalising round).
+//! Known deviations on the unchanged tree are split off into `*_kf_*` harnesses (see report):
+//!  * NTPv5 reference-id request whose payload length is not a multiple of four: `serialize`
+//!    panics (`assert_eq!` in ReferenceIdRequest::serialize),
+//!  * NTPv4 field shorter than the RFC 7822 minimum (16, last field 28): the encoder pads it and
+//!    the padding becomes part of the field's value, so (b) and (c) cannot hold; (a), the decoded
+//!    result of b1 and (d) are still checked in the main harnesses.
+use crate::common::*;
 use crate::stubs;
+use ntp_proto::verif::packet as ph;
+use ntp_proto::{NoCipher, NtpPacket};
+
+pub const SLACK: usize = 64;
+
+/// What the harness knows about the image from its template.
+#[derive(Clone, Copy)]
+pub struct Expect {
+    /// check (b): the expected normal form is `nf[..nf_len]`
+    pub check_nf: bool,
+    /// check (c): p2 == p
+    pub check_eq: bool,
+}
+
+/// Round trip of one image; `nf` is the expected normal form (only read when `e.check_nf`).
+pub fn round_trip<const M: usize>(data: &[u8], nf: &[u8; M], nf_len: usize, e: Expect) -> bool {
+    // byte-wise claims are checked at arbitrary indices i, j (drawn before the code under test)
+    let i: usize = kani::any();
+    let j: usize = kani::any();
+    kani::assume(i < M && j < M);
+    let (p, _) = match NtpPacket::deserialize(data, &NoCipher) {
+        Ok(x) => x,
+        Err(_) => return false,
+    };
+    let mut b1 = [0u8; M];
+    let n1 = match encode(&p, &NoCipher, &mut b1) {
+        Ok(n) => n,
+        Err(_) => {
+            assert!(false, "(a) an accepted packet can be encoded again");
+            return true;
+        }
+    };
+    if e.check_nf {
+        assert!(n1 == nf_len, "(b) encoded length is the length of the normal form");
+        if i < nf_len {
+            assert!(b1[i] == nf[i], "(b) encoding is the normal form of the input");
+        }
+    }
+    let (p2, _) = match NtpPacket::deserialize(&b1[..n1], &NoCipher) {
+        Ok(x) => x,
+        Err(_) => {
+            assert!(false, "(c) the re-encoded packet is accepted again");
+            return true;
+        }
+    };
+    if e.check_eq {
+        assert!(p2 == p, "(c) decoding the re-encoded packet yields the same packet");
+    }
+    let mut b2 = [0u8; M];
+    match encode(&p2, &NoCipher, &mut b2) {
+        Ok(n2) => {
+            assert!(n2 == n1, "(d) second encoding has the same length");
+            if j < n1 {
+                assert!(b2[j] == b1[j], "(d) second encoding yields the same bytes");
+            }
+        }
+        Err(_) => assert!(false, "(d) the normalised packet can be encoded"),
+    }
+    true
+}
+
+/// Normal form of a template image (wire format knowledge only):
+/// copy of the input where, for NTPv5, the padding after each field and the unused tail of a
+/// reference-id request are zero and the leap bits are 3 when the synchronized flag is clear.
+pub fn normal_form<const N: usize, const M: usize, const K: usize>(img: &Img<N, K>) -> [u8; M] {
+    let mut nf = [0u8; M];
+    nf[..N].copy_from_slice(&img.buf);
+    let version = (img.buf[0] >> 3) & 7;
+    if version == 5 {
+        if img.buf[15] & 1 == 0 {
+            nf[0] |= 0xC0;
+        }
+        let mut k = 0;
+        while k < K {
+            let o = img.off[k];
+            let l = img.flen[k] as usize;
+            let mut j = l;
+            while j < pad4(l) {
+                nf[o + j] = 0;
+                j += 1;
+            }
+            if get16(&img.buf, o) == T_REFID_REQ {
+                let mut j = 6;
+                while j < l {
+                    nf[o + j] = 0;
+                    j += 1;
+                }
+            }
+            k += 1;
+        }
+    }
+    nf
+}
+
+// ------------------------------------------------------------------ unstructured
+harness! {
+    #[kani::unwind(8)]
+    fn c24_rt_u() {
+        let buf: [u8; 52] = kani::any();
+        let len: usize = kani::any();
+        kani::assume(len <= 52);
+        // within 52 bytes only v3/v4 header (+ MAC of 4 bytes) can be accepted: identity
+        let mut nf = [0u8; 52 + SLACK];
+        nf[..52].copy_from_slice(&buf);
+        let acc = round_trip(&buf[..len], &nf, len, Expect { check_nf: true, check_eq: true });
+        let version = (buf[0] >> 3) & 7;
+        kani::cover!(acc && len == 48 && version == 3, "v3 header round trip");
+        kani::cover!(acc && len == 52 && version == 4, "v4 header + 4-byte MAC round trip");
+        kani::cover!(acc && len == 52 && version == 3, "v3 header + 4-byte MAC round trip");
+        kani::cover!(!acc && len == 50, "rejected input");
+    }
+}
